@@ -287,6 +287,8 @@ impl Drop for Shared {
 }
 
 fn load_kernel_shared(ptr: ptr::NonNull<AtomicU32>) -> u32 {
+    #[cfg(a10_verif)]
+    crate::verif::sched_point(crate::verif::LOAD_SHARED, ptr.as_ptr().addr());
     // SAFETY: since the value is shared with the kernel we need to use Acquire
     // memory ordering.
     unsafe { (*ptr.as_ptr()).load(Ordering::Acquire) }
